@@ -139,7 +139,10 @@ SliceOk(sl) == /\ sl.lo.k \in {"none", "int"} /\ sl.hi.k \in {"none", "int"} /\ 
 \* cur[arg] including slices; may allocate
 GetItemX(heap, cur, arg) ==
   IF arg.k # "slice" THEN
-    (IF cur.k = "str" /\ cur.s \notin DOMAIN StrChars /\ arg.k = "int" THEN R(heap, OutOfModel)   \* string not in the table
+    (IF IsRef(cur) /\ heap[cur.a].cls = "baddict"
+     THEN (IF arg = VStr("b") THEN R(heap, Exc("RuntimeError"))
+           ELSE IF HasKey(heap[cur.a].items, arg) THEN R(heap, Ok(Lookup(heap[cur.a].items, arg))) ELSE R(heap, Exc("KeyError")))
+     ELSE IF cur.k = "str" /\ cur.s \notin DOMAIN StrChars /\ arg.k = "int" THEN R(heap, OutOfModel)   \* string not in the table
      ELSE IF arg.k \in {"int", "str", "none"} THEN R(heap, GetItem(heap, cur, arg)) ELSE R(heap, OutOfModel))
   ELSE IF ~SliceOk(arg) THEN R(heap, Exc("TypeError"))
   ELSE IF arg.st.k = "int" /\ arg.st.i = 0 THEN
